@@ -87,9 +87,34 @@ pub fn run(a: &Args, prop: &str) -> i32 {
             }
         }
     }
-    let requests: Vec<(usize, String, String, String)> =
+    let mut requests: Vec<(usize, String, String, String)> =
         vectors.iter().map(|v| (v.case, "de".to_string(), v.op.clone(), serde_json::to_string(&v.payload).unwrap())).collect();
+    // every fifth conforming payload also inside the envelope `Response<ResponseData>` of the runtime crate (`{"data": …}`,
+    // with and without an `errors` member): what comes back as `data` must be what came back without the envelope
+    let enveloped: Vec<usize> = vectors.iter().enumerate().filter(|(i, v)| v.corruption.is_none() && i % 5 == 0).map(|(i, _)| i).collect();
+    for &i in &enveloped {
+        let v = &vectors[i];
+        let body = if i % 2 == 0 { json!({"data": v.payload}) } else { json!({"errors": [{"message": "partial", "path": ["x", 1]}], "data": v.payload, "extensions": {"k": [1, "two"]}}) };
+        requests.push((v.case, "env".to_string(), v.op.clone(), body.to_string()));
+    }
+    let n_direct = vectors.len();
     let replies = vcore::consumer::run_consumer(&exe, &requests);
+    for (k, &i) in enveloped.iter().enumerate() {
+        let (direct, env) = (parse_reply(&replies[i]), parse_reply(&replies[n_direct + k]));
+        let v = &vectors[i];
+        let c = &u.cases[v.case];
+        rep.count("payload:inside-response-envelope");
+        let same = match (&direct, &env) {
+            (Reply::Ok(_), Reply::Ok(e)) if c.no_serialize => e.is_null(),
+            (Reply::Ok(d), Reply::Ok(e)) => drop_nulls(&canon_numbers(&e["data"])) == drop_nulls(&canon_numbers(d)),
+            (Reply::Err(_), Reply::Err(_)) => true,
+            _ => false,
+        };
+        if !same {
+            rep.fail("response-envelope-changes-the-data", json!({"schema": c.sdl, "query": c.qtext, "operation": v.op, "payload": v.payload,
+                "without_envelope": replies[i], "inside_envelope": replies[n_direct + k]}));
+        }
+    }
     for (v, raw) in vectors.iter().zip(replies.iter()) {
         let reply = parse_reply(raw);
         let c = &u.cases[v.case];
